@@ -438,36 +438,107 @@ func checkIDListSymmetry(p *Prog, r *Report) {
 		})
 	}
 	sort.Slice(snd, func(i, j int) bool { return snd[i].pos < snd[j].pos })
-	// receiver: calls of the list reader (a function of the unit that reads ids in a loop until 0) with their guard
+	// receiver: calls of the list reader (a function of the unit that reads ids
+	// in a loop until 0 — directly or through a read-one-entry helper) with
+	// their guard; a call that sits in a per-list helper (recvIdMapping(enabled,
+	// …)) is attributed to that helper's call sites, where a fact about a
+	// boolean parameter becomes a fact about the argument
+	unit := g.unitFuncs(ril)
+	inUnit := map[*ssa.Function]bool{}
+	for _, u := range unit {
+		inUnit[u] = true
+	}
+	var readsInt func(h *ssa.Function, depth int) bool
+	readsInt = func(h *ssa.Function, depth int) bool {
+		found := false
+		allCalls(h, func(hc ssa.CallInstruction) {
+			if calleeName(hc) == "(*"+pkgWire+".Conn).ReadInt32" {
+				found = true
+			}
+			if sc := hc.Common().StaticCallee(); sc != nil && inUnit[sc] && sc != h && depth < 2 && readsInt(sc, depth+1) {
+				found = true
+			}
+		})
+		return found
+	}
+	isListReader := func(h *ssa.Function) bool {
+		if h == nil || h == ril || h.Blocks == nil || !inUnit[h] {
+			return false
+		}
+		loops := naturalLoops(h)
+		res := false
+		allCalls(h, func(hc ssa.CallInstruction) {
+			if len(loopsContaining(loops, hc.Block())) == 0 {
+				return
+			}
+			if calleeName(hc) == "(*"+pkgWire+".Conn).ReadInt32" {
+				res = true
+			}
+			if sc := hc.Common().StaticCallee(); sc != nil && inUnit[sc] && sc != h && readsInt(sc, 0) {
+				res = true
+			}
+		})
+		return res
+	}
+	letters := func(fs []Fact) string {
+		gd := ""
+		for _, f := range fs {
+			if !f.Val {
+				continue
+			}
+			if isFieldLoad(f.Cond, uF) {
+				gd += "U"
+			}
+			if isFieldLoad(f.Cond, gF) {
+				gd += "G"
+			}
+		}
+		return gd
+	}
 	var rcv []site
-	for _, u := range g.unitFuncs(ril) {
-		allCalls(u, func(c ssa.CallInstruction) {
-			h := c.Common().StaticCallee()
-			if h == nil || pkgPathOfFunc(h) != pkgReceiver || h == ril || h.Blocks == nil {
-				return
+	var attribute func(c ssa.CallInstruction, depth int)
+	attribute = func(c ssa.CallInstruction, depth int) {
+		u := c.Parent()
+		gd := letters(FactsAt(c))
+		if gd != "" || u == ril || depth >= 2 {
+			rcv = append(rcv, site{c.Pos(), gd})
+			return
+		}
+		nSites := 0
+		for _, e := range g.In[u] {
+			cs, ok := e.Site.(ssa.CallInstruction)
+			if !ok || e.Escape || cs.Common().StaticCallee() != u || isTestSupport(pkgPathOfFunc(e.From)) {
+				continue
 			}
-			readsIDs := false
-			allCalls(h, func(hc ssa.CallInstruction) {
-				if calleeName(hc) == "(*"+pkgWire+".Conn).ReadInt32" && len(loopsContaining(naturalLoops(h), hc.Block())) > 0 {
-					readsIDs = true
-				}
-			})
-			if !readsIDs {
-				return
-			}
-			gd := ""
-			for _, f := range FactsAt(c) {
-				if !f.Val {
+			nSites++
+			// facts about u's boolean parameters, as facts about this site's arguments
+			var tr []Fact
+			for _, lf := range expandFacts(FactsAtBlock(c.Block())) {
+				prm, isP := lf.Cond.(*ssa.Parameter)
+				if !isP || prm.Parent() != u {
 					continue
 				}
-				if isFieldLoad(f.Cond, uF) {
-					gd += "U"
-				}
-				if isFieldLoad(f.Cond, gF) {
-					gd += "G"
+				for i, pp := range u.Params {
+					if pp == prm && i < len(cs.Common().Args) {
+						tr = append(tr, Fact{Cond: cs.Common().Args[i], Val: lf.Val})
+					}
 				}
 			}
-			rcv = append(rcv, site{c.Pos(), gd})
+			if l := letters(tr); l != "" {
+				rcv = append(rcv, site{cs.Pos(), l})
+			} else {
+				attribute(cs, depth+1)
+			}
+		}
+		if nSites == 0 {
+			rcv = append(rcv, site{c.Pos(), ""})
+		}
+	}
+	for _, u := range unit {
+		allCalls(u, func(c ssa.CallInstruction) {
+			if isListReader(c.Common().StaticCallee()) {
+				attribute(c, 0)
+			}
 		})
 	}
 	sort.Slice(rcv, func(i, j int) bool { return rcv[i].pos < rcv[j].pos })
